@@ -257,7 +257,7 @@ class Result(abc.ABC):
                 return None
             powers = base ** np.arange(n_qubits - 1, -1, -1)
         else:
-            base_list = list(fold_base)
+            base_list = [int(b) for b in fold_base]  # exact integers: numpy ones overflow silently
             if len(base_list) != n_qubits:
                 raise ValueError(f'len(digits) != len(base) ({n_qubits} != {len(base_list)})')
             max_val = math.prod(base_list) - 1
@@ -332,6 +332,8 @@ class Result(abc.ABC):
                 'Cannot specify both fold_func and fold_base. '
                 'fold_base is a convenience shorthand for fold_func.'
             )
+        if fold_base is not None and not isinstance(fold_base, int):
+            fold_base = [int(b) for b in fold_base]  # may be a one-shot iterable; used twice below
         if fold_func is None:
             # Run fast version if indices fit in an int64.
             histogram = self._vectorized_histogram(key=key, fold_base=fold_base)
